@@ -69,7 +69,15 @@ def gen_project(rnd):
     if src_in_pkg or op in ("move-module", "move-package", "move-fn", "move-cls", "move-var"):
         files["pk/__init__.py"] = ""
         files["pk/inner/__init__.py"] = ""
-    S = ["import helper", "", "BASE = 10", ""]
+    # the source's own import of the helper: at top level, or bound inside a compound statement
+    helper_import = rnd.choice(["top"] * 5 + ["try-except", "if-else"])
+    if helper_import == "top":
+        S = ["import helper", ""]
+    elif helper_import == "try-except":
+        S = ["try:", "    import helper", "except ImportError:", "    helper = None", ""]
+    else:
+        S = ["import sys", "", "if sys.version_info >= (3,):", "    import helper", "else:", "    helper = None", ""]
+    S += ["BASE = 10", ""]
     body = "x * 2 + BASE" if uses_left_behind else "x * 2"
     S += ["def fn(x):", f"    return helper.inc({body})", ""]
     S += ["class Cls:", "    tag = 'cls'", "", "    def __init__(self, v):", "        self.v = v", "",
@@ -141,7 +149,7 @@ def gen_project(rnd):
     meta = {"src_in_pkg": src_in_pkg, "client_in_pkg": client_in_pkg, "style": style, "op": op,
             "uses_left_behind": uses_left_behind, "source_uses_at_import": source_uses_at_import,
             "dst_has_imports": dst_has_imports, "src_path": "pk/src.py" if src_in_pkg else "src.py",
-            "client_aliases_pkg": alias_pkg}
+            "client_aliases_pkg": alias_pkg, "helper_import": helper_import}
     return files, meta
 
 
@@ -204,6 +212,9 @@ def run_case(spec):
         cyc = meta["uses_left_behind"] and op in ("move-fn", "move-cls", "move-var")
         if cyc and meta["source_uses_at_import"]:
             label = "import-cycle(moved-code-uses-global-left-behind+source-uses-element-at-import)"
+        elif op == "move-fn" and meta["helper_import"] != "top" and meta["source_uses_at_import"]:
+            # same cycle through the back-import of the conditionally imported helper
+            label = "import-cycle(moved-code-uses-name-imported-in-compound-statement+source-uses-element-at-import)"
         elif meta["style"] == "star":
             label = "star-import-client"
         if label:
